@@ -383,6 +383,8 @@ class Run:
                         inputs[name] = _parse_smt_value(r["model"][name])
             elif ctx_inputs:
                 inputs, how = minimise_model(ob, ctx_inputs)
+            else:
+                inputs, how = {}, "the unit has no symbolic inputs (the replay harness chooses its own)"
         except Exception:
             inputs = None
         replay_dir = HERE / "replays"
